@@ -10,6 +10,7 @@
 #include "hooks.hpp"
 
 #include <tao/pegtl.hpp>
+#include <tao/pegtl/contrib/remove_first_state.hpp>
 #include <tao/pegtl/must_if.hpp>
 #include <tao/pegtl/contrib/check_bytes.hpp>
 #include <tao/pegtl/contrib/if_then.hpp>
@@ -401,6 +402,30 @@ namespace T
    using raw_t = p::raw_string< '[', '=', ']' >;
    // clang-format on
 
+   // a *terminal* hole: a rule with the plain match( in ) signature whose answer is explored like a hole's (fail / succeed
+   // consuming k / throw).  It is reached through Control< thole< I > >::match, i.e. with the full hook protocol; a terminal
+   // gets no rewind mode, so on failure it consumes nothing.
+   template< unsigned I >
+   struct thole
+   {
+      using rule_t = thole;
+      using subs_t = p::empty_list;
+      template< typename ParseInput >
+      [[nodiscard]] static bool match( ParseInput& in )
+      {
+         const int pos = int( in.current() - g_begin ), end = int( in.end() - g_begin );
+         const int a = hole_answer( int( I ), pos, end );
+         if( a >= A_SUCC0 ) {
+            in.bump( a - A_SUCC0 );
+            return true;
+         }
+         if( a == A_PE ) throw p::parse_error( "hole", in );
+         if( a == A_STD ) throw HoleStd( int( I ) );
+         if( a == A_X ) throw HoleX{ int( I ) };
+         return false;
+      }
+   };
+
    // X-macro list:  A0( NAME, group, rule type )   U1/B2/T3( NAME, group, wrapper template )
 #define VERIF_OPLIST( A0, U1, B2, T3 ) \
    A0( ANY, G_CORE, ( p::any ) ) \
@@ -420,6 +445,7 @@ namespace T
    A0( EVERYTHING, G_ATOM2, ( p::everything ) ) \
    A0( ISTRING_AB, G_ATOM2, ( p::istring< 'a', 'b' > ) ) \
    A0( RAISE_MSG, G_EXC, ( raise_msg ) ) \
+   A0( THOLE, G_EXC, ( p::seq< thole< I > > ) ) \
    A0( DISCARD, G_ATOM2, ( p::discard ) ) \
    A0( REQUIRE2, G_ATOM2, ( p::require< 2 > ) ) \
    A0( ONE_LF, G_POS, ( p::one< '\n' > ) ) \
@@ -942,7 +968,8 @@ namespace T
       E_RAISE,
       E_APPLY,
       E_APPLY0,
-      E_ACT  // an Action<node<I>>::apply/apply0 body ran
+      E_ACT,  // an Action<node<I>>::apply/apply0 body ran
+      E_FAIL_RAISE  // must_if: the failure hook of a rule with raise_on_failure is about to raise
    };
    struct Ev
    {
@@ -1276,6 +1303,16 @@ namespace T
    {
       template< typename In, typename... St >
       static void unwind( const In& in, St&&... )
+      {
+         mon_base< Rule, true, false >::log( E_UNWIND, in );
+      }
+   };
+   // the same monitor with an unwind() of fixed arity (no states): what a user who parses without states writes
+   template< typename Rule >
+   struct mon_fix : mon_base< Rule, true, false >
+   {
+      template< typename In >
+      static void unwind( const In& in )
       {
          mon_base< Rule, true, false >::log( E_UNWIND, in );
       }
@@ -1714,7 +1751,7 @@ namespace T
 
    // ------------------------------------------------------------------ must_if controls (C05)
    // ErrA: message table (a custom message for node<1>): every local failure of node<1> becomes a global one
-   // ErrB: explicit raise_on_failure for node<2>, no messages: default message
+   // ErrB: explicit raise_on_failure for node<2> only (default message); a message for node<1> that must not make it raise
    struct ErrA
    {
       template< typename Rule >
@@ -1729,15 +1766,40 @@ namespace T
       template< typename Rule >
       static constexpr bool raise_on_failure = ( rid< Rule >::kind == RK_NODE && rid< Rule >::v == 2 );
    };
+   // ErrB also has a message for node<1>, which raise_on_failure leaves a *local* failure (the documented switch)
+   template<>
+   inline constexpr const char* ErrB::message< node< 1 > > = "message B for n1";
+   inline bool raises_on_failure( int I );
+   // the must_if control over the monitor; the wrapper only marks, in the event log, the failures that the table turns into
+   // a raise (decided from the harness' own copy of the table, not from the library's raise_on_failure)
+   template< typename Errors, typename Rule >
+   struct mon_err : p::must_if< Errors, mon, false >::template control< Rule >
+   {
+      using base = typename p::must_if< Errors, mon, false >::template control< Rule >;
+      template< typename In, typename... St >
+      static void failure( const In& in, St&&... st ) noexcept( noexcept( base::failure( in, st... ) ) )
+      {
+         if( rid< Rule >::kind == RK_NODE && raises_on_failure( rid< Rule >::v ) ) mon_base< Rule, true, false >::log( E_FAIL_RAISE, in );
+         base::failure( in, st... );
+      }
+   };
    template< typename Rule >
-   using mon_errA = typename p::must_if< ErrA, mon, false >::template control< Rule >;
+   using mon_errA = mon_err< ErrA, Rule >;
    template< typename Rule >
-   using mon_errB = typename p::must_if< ErrB, mon, false >::template control< Rule >;
+   using mon_errB = mon_err< ErrB, Rule >;
    // the same tables over the plain normal control (its hooks are noexcept, unlike the monitor's)
    template< typename Rule >
    using plain_errA = typename p::must_if< ErrA, p::normal, false >::template control< Rule >;
    template< typename Rule >
    using plain_errB = typename p::must_if< ErrB, p::normal, false >::template control< Rule >;
+   // the adaptor parse_tree and other state-injecting facilities put around a user control: the monitor, and the must_if
+   // table A over the plain control, behind remove_first_state (the parse then runs with one leading dummy state)
+   template< typename Rule >
+   struct rfs_mon : p::remove_first_state< mon< Rule > >
+   {};
+   template< typename Rule >
+   struct rfs_errA : p::remove_first_state< plain_errA< Rule > >
+   {};
    inline int g_errors = 0;  // 0 none, 1 ErrA, 2 ErrB (tells the reference which must_if table is in effect)
    inline bool raises_on_failure( int I )
    {
